@@ -118,7 +118,9 @@ Definition declined_tags : list str :=
 
 Fixpoint supported_stmt (s : stmt) : bool :=
   match s with
-  | SFunc _ _ body _ _ => forallb supported_stmt body
+  | SFunc _ args body _ _ =>
+    (* ast invariant: one kw_defaults entry per keyword-only argument (find_in_ast indexes it) *)
+    Nat.eqb (List.length (ar_kw_defaults args)) (List.length (ar_kwonly args)) && forallb supported_stmt body
   | SClass _ _ body _ => forallb supported_stmt body
   | SOther tag _ blocks =>
     negb (existsb (str_eqb tag) declined_tags)
@@ -235,16 +237,20 @@ Fixpoint erase_stmt (s : astmt) : stmt :=
 Definition erase (m : amodule) : module := map erase_stmt m.
 
 (* ------------------------------------------------------------------ find_in_ast *)
+(* the variable cursor: always a statement list (Module.body or a ClassDef body) *)
 Inductive cursor : Type :=
-| CList (l : list astmt)
-| CArg (a : aarg).
+| CList (l : list astmt).
 
 Definition dlog := list (path * expr).   (* setattr(arg, "default", e) events, newest first *)
 
 Inductive for_res : Type :=
-| FReturn (n : anode) (log : dlog)
+| FReturn (n : anode) (log : dlog)       (* return <node> inside the loop *)
+| FNone (log : dlog)                     (* return None inside the loop *)
 | FErr (e : err)
 | FDone (cs : list str) (cur : cursor) (last : option astmt) (log : dlog).
+
+Definition with_default (a : aarg) (e : expr) : aarg :=
+  mkAArg (aa_id a) (aa_loc a) (aa_idx a) (Some e) (aa_name a) (aa_ann a).
 
 (* next(filter(lambda idx_arg: idx_arg[1].arg == query, enumerate(args)), None) *)
 Fixpoint find_arg_named (q : str) (i : nat) (l : list aarg) : option (nat * aarg) :=
@@ -255,7 +261,7 @@ Fixpoint find_arg_named (q : str) (i : nat) (l : list aarg) : option (nat * aarg
 
 (* the body of  [for child_node in cursor]  (ast_utils.py:find_in_ast), over the list the loop
    iterates.  [query]/[cs] are query/current_search, [cur] the variable cursor (reassigning it does
-   not change the list being iterated), [last] the loop variable child_node. *)
+   not change the list being iterated), [last] the loop variable child_node.  (Code as of /repo 6d00342.) *)
 Fixpoint find_for (search : loc) (kids : list astmt) (query : str) (cs : list str) (cur : cursor)
          (last : option astmt) (log : dlog) : for_res :=
   match kids with
@@ -264,27 +270,35 @@ Fixpoint find_for (search : loc) (kids : list astmt) (query : str) (cs : list st
     if oloc_eqb (stmt_loc c) search then FReturn (NStmt c) log
     else
       match c with
-      | AFunc _ _ _ args _ _ _ =>
-        (* the next segment is popped on every FunctionDef passed *)
-        let '(query', cs') := match cs with q :: r => (q, r) | [] => (query, []) end in
-        match find_arg_named query' 0 (aar_args args) with
-        | Some (i, a) =>
-          match nth_error (aar_defaults args) i with      (* len(defaults) > i : indexed from the front *)
-          | Some (DExpr e) =>
-            let a' := mkAArg (aa_id a) (aa_loc a) (aa_idx a) (Some e) (aa_name a) (aa_ann a) in
-            let log' := (aa_id a, e) :: log in
-            match cs' with
-            | [] => FReturn (NArg a') log'
-            | _ => find_for search rest query' cs' (CArg a') (Some c) log'
+      | AFunc _ _ name args _ _ _ =>
+        (* only the function named by the current segment owns the next segment; any other FunctionDef, or this
+           one when no segment is left, is passed over *)
+        match cs with
+        | [] => find_for search rest query cs cur (Some c) log
+        | query' :: cs' =>
+          if negb (str_eqb name query) then find_for search rest query cs cur (Some c) log
+          else
+            (* the loop ends here: the argument when it is the last segment, else None *)
+            let ret (a : aarg) (log' : dlog) : for_res :=
+                match cs' with [] => FReturn (NArg a) log' | _ => FNone log' end in
+            match find_arg_named query' 0 (aar_args args) with
+            | Some (i, a) =>
+              match nth_error (aar_defaults args) i with      (* len(defaults) > i : indexed from the front *)
+              | Some (DExpr e) => ret (with_default a e) ((aa_id a, e) :: log)
+              | Some _ => FErr Unmodelled       (* a default that is not an expression: only after a rewrite *)
+              | None => ret a log
+              end
+            | None =>
+              match find_arg_named query' 0 (aar_kwonly args) with
+              | Some (i, a) =>
+                match nth_error (aar_kw_defaults args) i with   (* kw_defaults[i] *)
+                | Some (Some e) => ret (with_default a e) ((aa_id a, e) :: log)
+                | Some None => ret a log
+                | None => FErr IndexError
+                end
+              | None => FNone log
+              end
             end
-          | Some _ => FErr Unmodelled       (* a default that is not an expression: only after a rewrite *)
-          | None =>
-            match cs' with
-            | [] => FReturn (NArg a) log
-            | _ => find_for search rest query' cs' (CArg a) (Some c) log
-            end
-          end
-        | None => find_for search rest query' cs' cur (Some c) log
         end
       | AAnnAssign _ _ target _ _ =>
         match name_id target with
@@ -318,10 +332,10 @@ Fixpoint find_while (fuel : nat) (search : loc) (child : option astmt) (cur : cu
       | true, Some c => Ok (Some (NStmt c), log)
       | _, _ =>
         match cur with
-        | CArg _ => Err TypeError                          (* for child_node in <ast.arg> *)
         | CList kids =>
           match find_for search kids query cs1 cur child log with
           | FReturn n log' => Ok (Some n, log')
+          | FNone log' => Ok (None, log')
           | FErr e => Err e
           | FDone cs2 cur' child' log' => find_while fuel' search child' cur' cs2 log'
           end
